@@ -11,6 +11,7 @@ from typing import (
     overload,
 )
 
+from formulaic.errors import FormulaSyntaxError
 from formulaic.parser.types.ordered_set import OrderedSet
 from formulaic.utils.layered_mapping import LayeredMapping
 from formulaic.utils.structured import Structured
@@ -118,12 +119,17 @@ class FormulaParser:
             Structured[OrderedSet[Term]],
         ] = formula
         context = LayeredMapping(context or {}, self.context)
-        if target >= self.Target.TOKENS:
-            out = tokens = self.get_tokens_from_formula(formula, context=context)
-        if target >= self.Target.AST:
-            out = ast = self.get_ast_from_tokens(tokens, context=context)
-        if target >= self.Target.TERMS:
-            out = self.get_terms_from_ast(ast, context=context)
+        try:
+            if target >= self.Target.TOKENS:
+                out = tokens = self.get_tokens_from_formula(formula, context=context)
+            if target >= self.Target.AST:
+                out = ast = self.get_ast_from_tokens(tokens, context=context)
+            if target >= self.Target.TERMS:
+                out = self.get_terms_from_ast(ast, context=context)
+        except RecursionError as e:
+            raise FormulaSyntaxError(
+                "Formula is nested too deeply to be parsed."
+            ) from e
         return out
 
     def get_tokens_from_formula(
